@@ -127,8 +127,8 @@ type c10Step struct {
 	Sup     *c10Sup  `json:"sup,omitempty"`
 	HookCfg int      `json:"hookcfg"`
 	Before  c10State `json:"-"`
-	Retain  int      `json:"retain"`          // what refreshRetain answers before the operation
-	Err     bool     `json:"err"`             // the entry point refused (no change created)
+	Retain  int      `json:"retain"` // what refreshRetain answers before the operation
+	Err     bool     `json:"err"`    // the entry point refused (no change created)
 	ErrMsg  string   `json:"errmsg,omitempty"`
 	Panic   string   `json:"panic,omitempty"` // the entry point of the real code panicked (reported as a refusal; the history stops)
 	Kinds   []string `json:"kinds,omitempty"`
@@ -583,13 +583,11 @@ func (s *verifC10Suite) play(c *C, in c10In) []c10Step {
 					steps = append(steps, st)
 					return steps
 				}
+				// every executed step is recorded (with its effective position), also the one that ends the sweep
+				steps = append(steps, st)
 				if st.K != k { // refused, or k is past the last position of the (possibly shorter) chain
-					if st.K == 0 {
-						steps = append(steps, st)
-					}
 					break
 				}
-				steps = append(steps, st)
 			}
 			if n := len(steps); n > 0 && steps[n-1].Err {
 				continue
@@ -809,6 +807,10 @@ func c10Sweeps(tier string) []c10In {
 			{Kind: "remove-rev", Rev: 3}, {Kind: "remove-rev", Rev: 2}, {Kind: "disable"}, {Kind: "remove-rev", Rev: 1},
 			inst, newr, {Kind: "revert"}}},
 		{Ops: []c10Op{inst, {Kind: "setcfg", Rev: 6}, newr, {Kind: "revert"}, {Kind: "disable"}, {Kind: "remove"}}},
+		// C11: failures at every task of remove / disable / enable changes (what the completed tasks' undo leaves)
+		{Core: true, Ops: []c10Op{inst, {Kind: "setcfg", Rev: 3}, newr, newr, {Kind: "revert"}, sw(c10Op{Kind: "remove"})}},
+		{Ops: []c10Op{inst, newr, sw(c10Op{Kind: "disable"}), sw(c10Op{Kind: "remove-rev", Rev: 1}), sw(c10Op{Kind: "enable"}),
+			{Kind: "disable"}, sw(c10Op{Kind: "remove"})}},
 		// C11: remove --revision of a disabled snap: the current one when it is not the last kept one (after a revert), a
 		// non-current one, then the current one again, enable
 		{Core: true, Ops: []c10Op{inst, newr, newr, {Kind: "revert"}, {Kind: "disable"}, {Kind: "remove-rev", Rev: 2},
@@ -820,8 +822,6 @@ func c10Sweeps(tier string) []c10In {
 	}
 	if tier == "thorough" {
 		ins = append(ins,
-			c10In{Ops: []c10Op{inst, newr, sw(c10Op{Kind: "remove"})}},
-			c10In{Ops: []c10Op{inst, newr, sw(c10Op{Kind: "disable"}), sw(c10Op{Kind: "enable"})}},
 			c10In{Core: true, Ops: []c10Op{inst, newr, newr, {Kind: "revert"}, {Kind: "disable"}, sw(c10Op{Kind: "enable"})}},
 			c10In{Core: true, Ops: []c10Op{inst, newr, newr, {Kind: "revert"}, sw(c10Op{Kind: "refresh"})}},
 		)
